@@ -49,6 +49,14 @@ def ser(kind, tiers):
                    "sqfs_inode_set_xattr_index, sqfs_inode_make_basic, sqfs_inode_make_extended (lib/sqfs/src/inode.c)"],
         bound="one tree node (%s) with %s, symbolic ids, times, link count, xattr index; every step of the serialiser may fail" % (nm, "permission bits 04751" if kind <= 3 else "all 4096 permission bit values"))
 OBLIGATIONS += [ser(k, ["quick", "thorough"]) for k in (1, 2, 3, 4, 5)]
+def tarball(nent, tiers):
+    return dict(name="tar2sqfs_process_tarball_n%d" % nent, harness="harness/C13_tarball.c", sources=[], included_sources=["bin/tar2sqfs/src/process_tarball.c"],
+        incdirs=["bin/tar2sqfs/src"], defines=dict(NENT=nent), unwind=6, leak=True, tiers=tiers, timeout=300,
+        fp_map={"destroy": ["dtor_in", "dtor_out"], "flush": ["flush_stub"], "next": ["it_next"], "read_link": ["it_read_link"], "open_file_ro": ["it_open_file_ro"], "read_xattr": ["it_read_xattr"]},
+        reach=["success", "failure"] + (["root"] if nent == 1 else []),
+        functions=["process_tarball, create_node_and_repack_data, set_root_attribs, copy_xattr, write_file (bin/tar2sqfs/src/process_tarball.c)"],
+        bound="%d archive entr%s of symbolic kind (file, directory, symlink, hard link, device; root or named), 0..2 xattrs (one possibly unsupported), up to 3 splices, every step may fail; no --root-becomes" % (nent, "y" if nent == 1 else "ies"))
+OBLIGATIONS += [tarball(1, ["quick", "thorough"]), tarball(2, ["thorough"])]
 FPIO = {'read_at': ['vp_file_read_at'], 'write_at': ['vp_file_write_at'], 'truncate': ['vp_file_truncate'], 'get_size': ['vp_file_get_size'], 'do_block': ['cw_do_block', 'vp_cmp_do_block']}
 OBLIGATIONS.append(dict(name="blockwriter_io_failure_h1_nb1", harness="harness/C08_blockwriter.c", sources=["lib/util/src/file_cmp.c", "lib/util/src/array.c"],
     included_sources=["lib/sqfs/src/block_writer.c"], defines=dict(H=1, NB=1, SZ=2, MODE=3), unwind=10, tiers=["quick", "thorough"], timeout=300, fp_map=FPIO,
